@@ -17,6 +17,12 @@ type file struct {
 }
 
 func (p *Parser) loadFile(path string, child *file) (*file, error) {
+	// One spelling for opening, symlink resolution and parent lookup: ".."
+	// is resolved lexically, as the (possibly root-confined) open does.
+	if _, base := filepath.Split(path); base != "" {
+		path = filepath.Clean(path)
+	}
+
 	f := &file{
 		id:       path,
 		child:    child,
